@@ -23,6 +23,10 @@ RULE = ("fixed x mobile sizes 1..40 x 1..25 (a third of the cases biased to <= 6
         "configuration; every call is one K case and one S evaluation. A case is non-trivial when it is distinct and has more than one atom on some "
         "side; the histogram records path taken, restraint kind, k, ties.")
 
+EPS = 2.0 ** -53
+T_FAR = 1e4      # largest translation (nm) of the far rigid-motion oracle
+FAR_MARGIN = 0.1  # the a-priori rounding bound of the unchanged algorithm must stay below FAR_MARGIN * TOL
+STATS = {"calls_with_every_term_exactly_0": 0, "far_rigid_motions": 0, "far_rigid_motions_beyond_1000nm": 0}
 TIE = 1e-9       # relative gap of the two smallest squared distances below which "nearest" is undecided
 TOL = 1e-9       # relative tolerance of the S oracle
 
@@ -161,6 +165,48 @@ def add_sequence(rs, case, force=False):
     return case
 
 
+def gen_coincide(rs, rkind=None):
+    """mobile configurations containing EXACT copies of fixed atoms (perfect overlap = what the optimiser looks for),
+    non-dyadic coordinates away from the origin; restraints matched (restrained pairs coincide too: every term of the
+    definition is exactly 0 when all fixed atoms are covered) or random."""
+    mode = rs.choice(["all", "all", "subset"])
+    n1 = int(rs.randint(1, 26)) if mode == "all" else int(rs.randint(1, 41))
+    scale = 10 ** rs.uniform(-1, 0.7)
+    center = rs.uniform(-1, 1, size=3) * 10 ** rs.uniform(0, 1.7)
+    m1 = center + rs.normal(size=(n1, 3)) * scale
+    if mode == "all":
+        n2 = int(rs.randint(n1, 26))
+        covered = list(range(n1))
+    else:
+        n2 = int(rs.randint(1, 26))
+        covered = list(rs.choice(n1, size=int(rs.randint(1, min(n1, n2) + 1)), replace=False))
+    labels = rs.permutation(n2)[:len(covered)]
+    m2e = center + rs.normal(size=(n2, 3)) * scale
+    where = {}
+    for i, j in zip(covered, labels):
+        m2e[j] = m1[i]
+        where[int(i)] = int(j)
+    rkind = rkind or RESTR_KINDS[rs.randint(len(RESTR_KINDS))]
+    if rs.randint(4) == 0 or rkind == "empty":
+        restr = gen_restr(rs, n1, n2, rkind)
+        match = "random"
+    else:
+        # matched restraints: pairs (i, label of the copy of i)
+        pool = sorted(where)
+        if rkind in ("partial", "dup_fixed") and len(pool) > 1:
+            pool = list(rs.choice(pool, size=int(rs.randint(1, len(pool))), replace=False))
+        restr = [(int(i), where[int(i)]) for i in pool]
+        if rkind in ("dup_fixed", "complete_dup"):
+            restr += [restr[rs.randint(len(restr))] for _ in range(int(rs.randint(1, 3)))]
+        rs.shuffle(restr)
+        restr = [(int(i), int(j)) for i, j in restr]
+        match = "matched"
+    m2c = center + rs.normal(size=(n2, 3)) * scale
+    return add_sequence(rs, {"stream": "coincide", "geo": "coincide_%s_%s" % (mode, match), "rkind": rkind,
+                             "m1": m1.tolist(), "m2c": m2c.tolist(), "restr": restr, "m2e": m2e.tolist(),
+                             "none_arg": bool(rs.randint(2))})
+
+
 def gen_error(rs):
     c = gen_case(rs, rkind=["partial", "complete"][rs.randint(2)])
     n1, n2 = len(c["m1"]), len(c["m2e"])
@@ -232,12 +278,14 @@ def sqdist(a, b):
     return (a[0] - b[0]) ** 2 + (a[1] - b[1]) ** 2 + (a[2] - b[2]) ** 2
 
 
-def reference(m1, m2, restr, cap=4096):
+def reference(m1, m2, restr, cap=4096, info=None):
     """(S, feasible k values, has_ties): S = sum over restrained pairs + sum over unrestrained fixed atoms of the
     squared distance to the nearest mobile atom; k = number of mobile atoms neither restrained nor nearest to an
     unrestrained fixed atom.  Where two mobile atoms are equally near (relative gap < TIE) the sentence does not say
-    which one is 'the nearest': every choice is accepted."""
+    which one is 'the nearest': every choice is accepted.  info (a dict) receives the terms and the smallest
+    relative gap between the two nearest mobile atoms of an unrestrained fixed atom."""
     terms = []
+    gap = 1.0
     restrained_fixed = set()
     restrained_mobile = set()
     for i, j in restr:
@@ -253,11 +301,16 @@ def reference(m1, m2, restr, cap=4096):
         dmin = min(d)
         terms.append(dmin)
         cand = [j for j in range(len(m2)) if d[j] - dmin <= TIE * d[j]]
+        if len(d) > 1:
+            second = sorted(d)[1]
+            gap = min(gap, (second - dmin) / second if second > 0 else 0.0)
         if len(cand) == 1:
             sure.add(cand[0])
         else:
             open_rows.append(cand)
     S = math.fsum(terms)
+    if info is not None:
+        info["terms"], info["gap"] = terms, gap
     n2 = len(m2)
     open_rows = [c for c in open_rows if not (set(c) & sure)] + [c for c in open_rows if set(c) & sure]
     if not open_rows:
@@ -281,6 +334,15 @@ def close(a, b, tol=TOL):
     return abs(a - b) <= tol * max(abs(a), abs(b))
 
 
+def moved_ok(out, val, size, nterms):
+    """value after a rigid motion of all inputs: a valid value (finite, >= 0) equal to val within TOL relative; the
+    motion itself perturbs every coordinate by a few ulps of `size`, so atoms that coincided exactly may end up
+    (64 eps size) apart: that much squared per term is allowed as an absolute floor (1e-25 nm^2 for size 50 nm)"""
+    if out[0] != "val" or not math.isfinite(out[1]) or out[1] < 0:
+        return False
+    return abs(out[1] - val) <= TOL * max(abs(out[1]), abs(val)) + nterms * (64 * EPS * size) ** 2
+
+
 def oracle_case(case, rs=None):
     """list of failed clauses of the property on this input (empty = holds)."""
     m1, m2c, m2e, restr = case["m1"], case["m2c"], case["m2e"], [tuple(p) for p in case["restr"]]
@@ -302,9 +364,17 @@ def oracle_case(case, rs=None):
         v = out[1]
         if not math.isfinite(v):
             return [tag + "non-finite value %r" % v]
+        info = {}
+        S, ks, ties_t = reference(m1, conf, restr, info=info)
         if v < 0:
-            bad.append(tag + "negative value %r" % v)
-        S, ks, ties_t = reference(m1, conf, restr)
+            # no tolerance on the sign: the reference definition is a sum of squares
+            bad.append(tag + "negative value %r (reference %r)" % (v, S * 1.1 ** min(ks)))
+        if all(x == 0.0 for x in info["terms"]):
+            STATS["calls_with_every_term_exactly_0"] += 1
+        if all(x == 0.0 for x in info["terms"]) and v != 0.0:
+            bad.append(tag + "every term of the reference definition is exactly 0 but the value is %r" % v)
+        if t == 0:
+            info0 = info
         if not any(close(v, S * 1.1 ** k) for k in ks):
             bad.append(tag + "value %.17g differs from the reference definition: S=%.17g, k in %s -> %s" %
                        (v, S, sorted(ks), [S * 1.1 ** k for k in sorted(ks)][:4]))
@@ -327,8 +397,28 @@ def oracle_case(case, rs=None):
     Q = random_rotation(rs)
     t = rs.uniform(-2, 2, size=3) * ext
     out3 = impl_chi2(case, m1=A1 @ Q.T + t, m2c=A2c @ Q.T + t, m2e=A2e @ Q.T + t)
-    if out3[0] != "val" or not close(out3[1], val):
+    nterms = max(1, len(info0["terms"]))
+    if not moved_ok(out3, val, 3 * ext, nterms):
         bad.append("not invariant under a common rigid motion: %r vs %r" % (out3, val))
+    # ... and with a translation at system-box scale and beyond: |t| log-uniform in [1, T_FAR] nm, capped per case
+    # where the rounding of the inputs themselves (eps * |t| per coordinate) would exceed a tenth of the tolerance
+    roots = [math.sqrt(x) for x in info0["terms"]]
+    if info0["gap"] >= 1e-6:
+        cap = (FAR_MARGIN * TOL * math.fsum(info0["terms"]) / (8 * EPS * math.fsum(roots)) - ext) if sum(roots) > 0 \
+            else T_FAR
+        T = min(10 ** rs.uniform(0, math.log10(T_FAR)), cap)
+        if T >= 1:
+            STATS["far_rigid_motions"] += 1
+            STATS["far_rigid_motions_beyond_1000nm"] += int(T >= 1e3)
+            d = rs.normal(size=3)
+            t = d / np.linalg.norm(d) * T
+            Q = random_rotation(rs)
+            c0 = A1.mean(axis=0)
+            far = [(A - c0) @ Q.T + c0 + t for A in (A1, A2c, A2e)]
+            out7 = impl_chi2(case, m1=far[0], m2c=far[1], m2e=far[2])
+            if not moved_ok(out7, val, ext + T, nterms):
+                bad.append("not invariant under a common rigid motion with |t| = %.4g: %r vs %r (relative change %.3g)" %
+                           (T, out7, val, abs(out7[1] - val) / max(abs(val), 1e-300) if out7[0] == "val" else -1))
     # consistent relabelling of mobile atoms, fixed atoms and of the restraint list
     s = rs.permutation(n2)           # new label of mobile atom j is s[j]
     tau = rs.permutation(n1)
@@ -507,13 +597,16 @@ def correspondence(ctx):
     n_gen = ctx.n(1000, 10000)
     n_dy = ctx.n(400, 4000)
     n_err = ctx.n(40, 300)
+    n_co = ctx.n(300, 3000)
     todo = [dict(c) for c in CORPUS]
     # every (restraint kind) x (small sizes) appears at least once, then the random streams
     for rk in ("empty", "partial", "dup_fixed", "complete", "complete_dup"):
         todo.append(gen_case(rs, rk))
         todo.append(gen_dyadic(rs, rk))
+        todo.append(gen_coincide(rs, rk))
     todo += [gen_case(rs) for _ in range(n_gen)]
     todo += [gen_dyadic(rs) for _ in range(n_dy)]
+    todo += [gen_coincide(rs) for _ in range(n_co)]
     todo += [gen_error(rs) for _ in range(n_err)]
     cases, meta = [], []
     hist = {"stream": {}, "path": {}, "rkind": {}, "geo": {}, "k": {}, "ties": 0, "n_fixed": {}, "n_mobile": {},
@@ -568,6 +661,7 @@ def correspondence(ctx):
     K["input_distribution"] = hist
     K["log"] = log
     K["oracle_failures_on_K_cases"] = s_fail
+    ctx.cov["S"]["on_K_cases"] = dict(STATS)
     if codes is None:
         K["error"] = log
         return [{"error": "coqc failed on the correspondence cases", "log": log[-1500:]}]
@@ -589,7 +683,7 @@ def oracle(ctx, scale):
     ties = 0
     ncalls = 0
     for t in range(n):
-        case = gen_dyadic(rs) if t % 4 == 3 else gen_case(rs)
+        case = gen_dyadic(rs) if t % 4 == 3 else gen_coincide(rs) if t % 4 == 1 else gen_case(rs)
         bad = oracle_case(case, rs)
         for t, conf in enumerate(seq_of(case)):
             ctx.count(("S", case["m1"], case["m2c"], case["restr"], conf, t),
@@ -604,6 +698,7 @@ def oracle(ctx, scale):
     S["dyadic_cases_x%d" % scale] = ties
     S["calls_on_those_calculators_x%d" % scale] = ncalls
     S["failures"] = S.get("failures", 0) + nfail
+    S["cumulative"] = dict(STATS)
 
 
 def replay(ctx, obj):
